@@ -130,7 +130,16 @@ func (s *set[ElementType]) replace(elements ds.ReadableSet[ElementType]) (applie
 	s.readableSet.mutex.Lock()
 	defer s.readableSet.mutex.Unlock()
 
-	return ds.NewSetMutations[ElementType](elements.ToSlice()...).WithDeletedElements(s.value.Replace(elements)), s.uniqueUpdateID.Next(), s.updateCallbacks.Values()
+	// only the elements that were not part of the set before are reported as added (the subscribers count what they
+	// are told: an element that is reported as added twice needs to be deleted twice to disappear from derived sets).
+	addedElements := ds.NewSet[ElementType]()
+	elements.Range(func(element ElementType) {
+		if !s.value.Has(element) {
+			addedElements.Add(element)
+		}
+	})
+
+	return ds.NewSetMutations[ElementType]().WithAddedElements(addedElements).WithDeletedElements(s.value.Replace(elements)), s.uniqueUpdateID.Next(), s.updateCallbacks.Values()
 }
 
 // endregion ///////////////////////////////////////////////////////////////////////////////////////////////////////////
